@@ -66,7 +66,7 @@ pub fn gen(r: &mut Rng) -> Value {
     for _ in 0..n {
         let label = if r.chance(1, 3) { json!(r.pick(&labels)) } else { Value::Null };
         let out = if r.chance(1, 2) { json!(format!("v{}", r.below(3))) } else { Value::Null };
-        let kind = match r.below(17) {
+        let kind = match r.below(20) {
             0..=5 => "cont",
             6 | 7 => "gotol",
             8 => "goton",
@@ -76,8 +76,13 @@ pub fn gen(r: &mut Rng) -> Value {
             13 => "halt",
             14 => "unknown",
             15 => "halterr",
-            _ => "nocmd",
+            16 => "nocmd",
+            // lines that are no script instructions (they still count as lines for labels and line numbers)
+            17 => "pre",
+            18 => "blank",
+            _ => "comment",
         };
+        let (label, out) = if kind == "pre" || kind == "blank" || kind == "comment" { (Value::Null, Value::Null) } else { (label, out) };
         let val = match r.below(8) { 0 => "-", 1 => "0", 2 => "7", 3 => "x", 4 => "${v0}", 5 => "-3", 6 => "\\${v0}", _ => "CRASHME" };
         let target = if kind == "gotol" { json!(r.pick(&[":a", ":b", ":c", ":zz"])) } else { json!(r.below(n + 2).to_string()) };
         // some lines spell the command with a word that is both the name of one command and (registered
@@ -116,6 +121,9 @@ pub fn run(input: &Value) -> Option<Value> {
         }
         match l["kind"].as_str()? {
             "nocmd" => {}
+            "pre" => s.push_str("!print"),
+            "blank" => {}
+            "comment" => s.push_str("# a comment :a"),
             "unknown" => s.push_str("nosuchcommand a"),
             k => s.push_str(&format!("{} {} {} {}", if l["via_alias"].as_bool().unwrap_or(false) { "shadow" } else { "t" }, k, l["val"].as_str()?, l["target"].as_str()?)),
         }
@@ -153,6 +161,10 @@ pub fn run(input: &Value) -> Option<Value> {
         let src_line = line + 1;
         if kind == "nocmd" {
             upd(&mut vars, &out, None);
+            line += 1;
+            continue;
+        }
+        if kind == "pre" || kind == "blank" || kind == "comment" {
             line += 1;
             continue;
         }
